@@ -2,7 +2,10 @@
 """Regenerate /verif/MANIFEST.json from tools/props_meta.json and the properties the harness implements."""
 import json, subprocess, os, sys
 root = '/verif'
-meta = json.load(open(f'{root}/tools/props_meta.json'))
+meta = {}
+import glob
+for f in sorted(glob.glob(f'{root}/tools/meta/*.json')):
+    meta[os.path.basename(f)[:-5]] = json.load(open(f))
 props = [json.loads(l) for l in open(f'{root}/properties.jsonl')]
 try:
     impl = subprocess.run([f'{root}/harness/target/release/vcheck', 'list'], capture_output=True, text=True, check=True).stdout.split()
